@@ -206,12 +206,124 @@ class Policy:
         return False
 
 class Exec:
-    def __init__(self, facts, policy, max_nodes=20000):
+    def __init__(self, facts, policy, max_nodes=20000, loops="reject", hooks=None):
         self.facts = facts
         self.policy = policy
         self.max_nodes = max_nodes
         self.nodes = 0
         self.sites = []   # assert / panic sites met (for information)
+        self.loops = loops          # "reject": Unsupported on any loop; "havoc": over-approximate loops
+        self.hooks = hooks          # optional object with decide(cond, st) / on_assert(...) / on_panic(...)
+        self.hv = 0
+        self._loopinfo = {}
+        self.loop_entries = []      # (body ident, head, {local: (value before the loop, havoc term)})
+
+    # ------------------------------------------------------------ loops
+    def loop_info(self, mir):
+        """{head block: (blocks of its strongly connected component, locals assigned there, deref'd ref locals written)}"""
+        key = id(mir)
+        if key in self._loopinfo:
+            return self._loopinfo[key]
+        blocks = mir["blocks"]
+        succ = []
+        for b in blocks:
+            t = b["t"]; k = t["k"]; out = []
+            if k in ("goto", "drop", "assert"):
+                out.append(t["t"])
+            elif k == "call":
+                if t["t"] is not None:
+                    out.append(t["t"])
+            elif k == "switch":
+                out.extend(t["targets"]); out.append(t["otherwise"])
+            succ.append(out)
+        n = len(blocks)
+        # Tarjan SCC (iterative)
+        index = {}; low = {}; onst = set(); stack = []; sccs = []; idx = [0]
+        def strong(v):
+            work = [(v, 0)]
+            index[v] = low[v] = idx[0]; idx[0] += 1; stack.append(v); onst.add(v)
+            while work:
+                v, i = work.pop()
+                if i < len(succ[v]):
+                    work.append((v, i + 1))
+                    w = succ[v][i]
+                    if w not in index:
+                        index[w] = low[w] = idx[0]; idx[0] += 1; stack.append(w); onst.add(w)
+                        work.append((w, 0))
+                    elif w in onst:
+                        low[v] = min(low[v], index[w])
+                else:
+                    if work:
+                        u = work[-1][0]
+                        low[u] = min(low[u], low[v])
+                    if low[v] == index[v]:
+                        comp = []
+                        while True:
+                            w = stack.pop(); onst.discard(w); comp.append(w)
+                            if w == v:
+                                break
+                        sccs.append(comp)
+        strong(0)
+        info = {}
+        for comp in sccs:
+            cs = set(comp)
+            if len(comp) == 1 and comp[0] not in succ[comp[0]]:
+                continue
+            # heads: blocks of the component entered from outside (or block 0)
+            heads = set()
+            for v in range(n):
+                if v in index and v not in cs:
+                    for w in succ[v]:
+                        if w in cs:
+                            heads.add(w)
+            if 0 in cs:
+                heads.add(0)
+            assigned = set(); through = set()
+            for v in comp:
+                b = blocks[v]
+                for st_ in b["s"]:
+                    if "lhs" in st_:
+                        pl = st_["lhs"]
+                        if "deref" in pl["p"]:
+                            through.add(pl["l"])
+                        else:
+                            assigned.add(pl["l"])
+                        rv = st_["rv"]
+                        if "ref" in rv and rv.get("mut"):
+                            tp = rv["ref"]
+                            if "deref" in tp["p"]:
+                                through.add(tp["l"])
+                            else:
+                                assigned.add(tp["l"])
+                t = b["t"]
+                if t["k"] == "call":
+                    pl = t["dest"]
+                    if "deref" in pl["p"]:
+                        through.add(pl["l"])
+                    else:
+                        assigned.add(pl["l"])
+            for h in heads:
+                info[h] = (cs, assigned, through)
+        self._loopinfo[key] = info
+        return info
+
+    def havoc(self, st, fr, head):
+        cs, assigned, through = self.loop_info(fr.mir)[head]
+        entry = {}
+        for l in sorted(assigned):
+            self.hv += 1
+            before = st.store.get(fr.locs[l])
+            hvt = mk("havoc", self.hv, F.norm_ty(fr.mir["locals"][l]["ty"]))
+            if before is not None:
+                entry[l] = (self.deref_value(st, before), hvt)
+            st.store[fr.locs[l]] = hvt
+        self.loop_entries.append((fr.body.ident(), head, entry))
+        for l in sorted(through):
+            v = st.store.get(fr.locs[l])
+            if tag(v) == "ref":
+                self.hv += 1
+                self.store_to(st, v[1], tuple(v[2]), mk("havoc", self.hv, "pointee"))
+        return sorted(assigned)
 
     # ------------------------------------------------------------ entry
     def run_body(self, body, args=None):
@@ -561,7 +673,8 @@ class Exec:
         if kind == "IntToFloat" and is_const(a) and frm in INT_BITS and to == "f64":
             import struct
             v = to_signed(frm, cint(a))
-            return mk_const("f64", struct.unpack("<Q", struct.pack("<d", float(v)))[0]) if abs(v) < (1 << 53) else mk("cast", kind, frm, to, a)
+            # Python's int -> float conversion is correctly rounded (ties to even), like Rust's `as f64`
+            return mk_const("f64", struct.unpack("<Q", struct.pack("<d", float(v)))[0])
         return mk("cast", kind, frm, to, a)
 
     def rvalue(self, st, fr, rv):
@@ -784,8 +897,14 @@ class Exec:
                 raise Unsupported("node budget exceeded")
             fr = st.frames[-1]
             if bi in fr.visited:
+                if self.loops == "havoc" and bi in self.loop_info(fr.mir):
+                    cs, assigned, through = self.loop_info(fr.mir)[bi]
+                    snap = tuple((l, self.deref_value(st, st.store.get(fr.locs[l]))) for l in sorted(assigned) if fr.locs[l] in st.store)
+                    return ("backedge", fr.body.ident(), bi, snap)
                 raise Unsupported("loop in %s" % fr.body.ident())
             fr.visited = fr.visited | {bi}
+            if self.loops == "havoc" and bi in self.loop_info(fr.mir):
+                self.havoc(st, fr, bi)
             b = fr.mir["blocks"][bi]
             for s in b["s"]:
                 if "lhs" in s:
@@ -919,6 +1038,8 @@ def map_tree(tree, f):
         return ("switch", f(tree[1]), tuple((v, map_tree(t, f)) for v, t in tree[2]), map_tree(tree[3], f))
     if tree[0] == "leaf":
         return ("leaf", f(tree[1]), tuple((i, f(v)) for i, v in tree[2]))
+    if tree[0] == "backedge":
+        return ("backedge", tree[1], tree[2], tuple((l, f(v) if v is not None else None) for l, v in tree[3]))
     return tree
 
 def is_straight(tree):
